@@ -603,6 +603,13 @@ class DecimalRange(Range):
                             try:
                                 decimal_value = decimal.Decimal(next_value)
                                 _, digits, exponent = decimal_value.as_tuple()
+                                if abs(exponent) > decimal.getcontext().Emax:
+                                    # Such numbers cannot be shown in error messages.
+                                    raise errors.InterfaceError(
+                                        "exponent of number must be between -%d and %d but is: %s"
+                                        % (decimal.getcontext().Emax, decimal.getcontext().Emax, _compat.text_repr(next_value)),
+                                        location,
+                                    )
                                 digits_after_dot = max(0, -exponent)
                                 if digits_after_dot > max_digits_after_dot:
                                     max_digits_after_dot = digits_after_dot
